@@ -697,8 +697,17 @@ def main():
         ids = sys.argv[2:]
         if not ids or ids == ["all"]:
             ids = sorted(os.path.basename(p)[:-4] for p in glob.glob(os.path.join(PROPS, "C??.cpp")))
+        jobs = []
+        for pid in ids:
+            c = conf(pid)
+            for v in c.get("variants", [c["variant"]]):
+                jobs.append((pid, v))
+        # adapters of each variant first (one at a time), then all property binaries in parallel
+        for v in sorted(set(v for _, v in jobs)):
+            first = next(p for p, vv in jobs if vv == v and conf(p)["adapters"])
+            build(first, v)
         with ThreadPoolExecutor(max_workers=NCPU) as ex:
-            list(ex.map(build, ids))
+            list(ex.map(lambda j: build(j[0], j[1]), jobs))
         return 0
     if cmd == "replay":
         pid, path = sys.argv[2], sys.argv[3]
